@@ -80,7 +80,7 @@ void vp_destroyed(u8* a, u32 state) {
 /* ---- real-code externals */
 void _ZN3tbb6detail2r115throw_exceptionENS0_2d012exception_idE(u32 id) { n_tbb_throws++; vp_throw_user(&tok_tbb); }   /* contract: throws */
 /* cut tbb::detail::d0::atomic_backoff::pause(): with a single thread any busy-wait iteration means waiting for somebody who does not exist */
-void _ZN3tbb6detail2d014atomic_backoff5pauseEv(u8* self) {
+void _ZN3tbb6detail2d014atomic_backoff5pauseEv(struct S_class_tbb__detail__d0__atomic_backoff* self) {
   VP_ASSERT(0, "fault: growth call waits forever for a segment that an earlier failed call left unallocated");
   __CPROVER_assume(0);
 }
@@ -127,7 +127,7 @@ int main(void) {
   check_state(0);
   unsigned log0 = n_log;
   /* OP1 with the fault */
-  fault_kind = FK; fault_at = (unsigned)vp_nd_range(0, KMAX); armed = 1;
+  fault_kind = FK; fault_at = FAULTK;   /* concrete per query: symbolic k makes symex explode (diverging paths x loop unwinding) */ armed = 1;
   u32 r1 = do_op(OP1, ARG1, 100);
   armed = 0;
   VP_ASSERT(r1 == (n_faults != 0), "the injected exception must reach the caller of the failing call, and nothing else may throw");
